@@ -798,6 +798,10 @@ type Data struct {
 
 	metadata   map[Schema][]byte
 	metadataMu sync.RWMutex
+
+	// Serializes the read-merge-write of an annotation (store and in-memory copy)
+	// so concurrent updates of one body cannot lose fields.
+	updateMu sync.Mutex
 }
 
 // IsMutationRequest overrides the default behavior to specify POST /query as an immutable
@@ -1440,6 +1444,9 @@ func (d *Data) storeAndUpdate(ctx *datastore.VersionedCtx, keyStr string, newDat
 		return err
 	}
 
+	d.updateMu.Lock()
+	defer d.updateMu.Unlock()
+
 	// get original data so we can handle default update and tell which values change for _user/_time fields.
 	origData, found, err := d.getStoreData(ctx, keyStr)
 	if err != nil {
@@ -1599,6 +1606,9 @@ func (d *Data) DeleteData(ctx storage.VersionedCtx, keyStr string) error {
 	if err != nil {
 		return err
 	}
+	d.updateMu.Lock()
+	defer d.updateMu.Unlock()
+
 	mdb, found := d.getMemDBbyVersion(ctx.VersionID())
 	if found {
 		mdb.mu.Lock()
